@@ -1,6 +1,8 @@
 """Rig R: drive a real reader (HdlcFrameReader / ModeDReader) with a fragmented byte stream."""
 from __future__ import annotations
 
+import contextlib
+
 from dst.world import fragment
 
 LINE_RATE = 2400 / 10.0  # octets per simulated second at 2400 baud 8N1 (bookkeeping only)
@@ -28,9 +30,93 @@ class Feed:
         self.probes = {}
 
 
+class ProcessClock:
+    """The clocks a reader could consult, as a seam: while a read() call runs, `time.monotonic/time/perf_counter`
+    (and their _ns forms) and the clock names bound in the loaded han.* modules return simulated time. Simulated time
+    advances with the line rate and with the stalls the scenario puts between two deliveries (a slow or stalled
+    sender / event loop): what a reader returns must not depend on WHEN read() is called."""
+
+    NAMES = ("monotonic", "time", "perf_counter", "monotonic_ns", "time_ns", "perf_counter_ns")
+
+    def __init__(self, source=None) -> None:
+        self.t = 0.0
+        self.reads = 0
+        self.source = source  # e.g. a virtual event loop's time(); else the value the rig advances itself
+        self.loop = self  # clockshim.Clock protocol: .loop.time()
+
+    def time(self) -> float:
+        return self.t if self.source is None else self.source()
+
+    def __enter__(self):
+        import sys
+        import time as real
+
+        import han.autodecoder  # noqa: F401 - every han module must be loaded before its clock names can be replaced
+        import han.meter_connection  # noqa: F401
+
+        from dst.world import clockshim
+
+        clock = clockshim.Clock(self)
+        self._clock = clock
+        self._saved = {n: getattr(real, n) for n in self.NAMES}
+        self._undo = []
+        for mname in sorted(m for m in sys.modules if m.startswith("han.")):  # names bound at import time
+            self._undo.append(clockshim.install(sys.modules[mname], clock)[0])
+        real.monotonic = real.perf_counter = clock.seconds
+        real.time = lambda: clockshim.EPOCH_TS + clock.seconds()
+        real.monotonic_ns = real.perf_counter_ns = lambda: int(clock.seconds() * 1e9)
+        real.time_ns = lambda: int((clockshim.EPOCH_TS + clock.seconds()) * 1e9)
+        return self
+
+    def __exit__(self, *exc):
+        import time as real
+
+        for n, v in self._saved.items():
+            setattr(real, n, v)
+        for undo in self._undo:
+            undo()
+        self.reads = self._clock.reads
+        return False
+
+
 def feed(reader, wire: bytes, cutspec: dict, probe=None, bystander=None, keep_going: bool = False) -> Feed:
     """`bystander`: optional (other reader instance, its own byte stream): another connection of the same
-    process whose reader is fed between our calls. Instances must not influence each other."""
+    process whose reader is fed between our calls. Instances must not influence each other.
+    cutspec["gaps"] = [[k, seconds], ...]: the delivery before call k (mod number of calls) stalls that long."""
+    # Always on the simulated process clock: no read() ever sees the machine's clocks (a reader that consults one would
+    # otherwise make runs irreproducible); without stalls simulated time advances with the line rate only.
+    pieces = fragment.chunks(wire, cutspec)
+    stall = {}
+    for k, sec in cutspec.get("gaps") or ():
+        stall[k % len(pieces)] = stall.get(k % len(pieces), 0.0) + float(sec)
+    clocked = _Clocked(reader, stall)
+    with clocked._clock:
+        out = _feed(clocked, wire, cutspec, probe, bystander, keep_going)
+    out.probes["process_clock_reads"] = clocked._clock.reads
+    if not out.probes["process_clock_reads"]:
+        del out.probes["process_clock_reads"]
+    return out
+
+
+class _Clocked:
+    """Reader wrapper: advances the simulated process clock (installed by feed() for the whole delivery) per call."""
+
+    def __init__(self, reader, stall) -> None:
+        self._r = reader
+        self._stall = stall
+        self._k = 0
+        self._clock = ProcessClock()
+
+    def read(self, chunk):
+        self._clock.t += self._stall.get(self._k, 0.0) + len(chunk) / LINE_RATE
+        self._k += 1
+        return self._r.read(chunk)
+
+    def __getattr__(self, name):
+        return getattr(self._r, name)
+
+
+def _feed(reader, wire: bytes, cutspec: dict, probe=None, bystander=None, keep_going: bool = False) -> Feed:
     out = Feed()
     as_bytearray = cutspec.get("as") == "bytearray"
     by = Bystander(bystander[0], bystander[1]) if bystander else None
@@ -52,6 +138,8 @@ def feed(reader, wire: bytes, cutspec: dict, probe=None, bystander=None, keep_go
         out.messages.extend(msgs)
         if probe is not None:
             probe(reader, chunk, out.probes)
+    if cutspec.get("gaps"):
+        out.probes["stalled_delivery"] = 1
     return out
 
 
@@ -126,16 +214,26 @@ def reader_state(reader) -> tuple:
 def trace_feed(kind: str, cfg, wire: bytes, cutspec: dict, limit: int = 300):
     """Readable call-by-call trace for replay files: chunk, reader state, messages returned."""
     reader = make_reader(kind, cfg)
+    pieces = fragment.chunks(wire, cutspec)
+    stall = {}
+    for k, sec in cutspec.get("gaps") or ():
+        stall[k % len(pieces)] = stall.get(k % len(pieces), 0.0) + float(sec)
+    clock = ProcessClock()
+    lines = []
     pos = 0
-    for idx, chunk in enumerate(fragment.chunks(wire, cutspec)):
-        if idx >= limit:
-            yield f"... ({len(wire) - pos} more octets)"
-            return
-        try:
-            msgs = reader.read(chunk)
-            out = ", ".join(f"{type(m).__name__}[{len(m.as_bytes)}]{'' if m.is_valid else '!invalid'}" for m in msgs)
-        except Exception as ex:  # noqa: BLE001
-            out = f"RAISED {ex!r}"
-        head = chunk[:24].hex() + ("..." if len(chunk) > 24 else "")
-        yield f"read#{idx} @{pos} len={len(chunk)} {head} -> [{out}] state(hunt,esc)={reader_state(reader)}"
-        pos += len(chunk)
+    with clock if stall else contextlib.nullcontext():
+        for idx, chunk in enumerate(pieces):
+            if idx >= limit:
+                lines.append(f"... ({len(wire) - pos} more octets)")
+                break
+            clock.t += stall.get(idx, 0.0) + len(chunk) / LINE_RATE
+            try:
+                msgs = reader.read(chunk)
+                out = ", ".join(f"{type(m).__name__}[{len(m.as_bytes)}]{'' if m.is_valid else '!invalid'}" for m in msgs)
+            except Exception as ex:  # noqa: BLE001
+                out = f"RAISED {ex!r}"
+            head = chunk[:24].hex() + ("..." if len(chunk) > 24 else "")
+            when = f" t={clock.t:.3f}s{' (delivery stalled %.1fs)' % stall[idx] if idx in stall else ''}" if stall else ""
+            lines.append(f"read#{idx} @{pos}{when} len={len(chunk)} {head} -> [{out}] state(hunt,esc)={reader_state(reader)}")
+            pos += len(chunk)
+    yield from lines
